@@ -361,3 +361,242 @@ Proof.
     + eapply split_counts_sorted; eauto.
     + eapply cut_ok_tables; eauto.
 Qed.
+
+Lemma radd_in reqs sid e x :
+  In x (concat (map snd (radd reqs sid e))) <-> In x (concat (map snd reqs)) \/ x = e.
+Proof.
+  induction reqs as [|[j es] r IH]; cbn [radd map snd concat].
+  - cbn. intuition congruence.
+  - destruct (j =? sid); cbn [map snd concat]; rewrite !in_app_iff.
+    + cbn. intuition congruence.
+    + rewrite IH. tauto.
+Qed.
+
+Lemma demux_in items closed reqs maxv closed' reqs' maxv' :
+  demux items closed reqs maxv = Some (closed', reqs', maxv') ->
+  forall x, In x (concat (map snd reqs')) <-> In x (concat (map snd reqs)) \/ In x (all_skv items).
+Proof.
+  revert closed reqs maxv. induction items as [|it items IH]; intros closed reqs maxv; cbn [demux].
+  - intros [= <- <- <-] x. cbn. tauto.
+  - destruct it as [sid e|sid].
+    + destruct (mem_n sid closed); [discriminate|]. intros H x. rewrite (IH _ _ _ H), radd_in.
+      cbn [all_skv flat_map In app]. intuition congruence.
+    + intros H x. rewrite (IH _ _ _ H). cbn [all_skv flat_map app]. tauto.
+Qed.
+
+Lemma wupdate_entries ws sid w' x :
+  (forall w, wlookup ws sid = Some w -> forall y, In y (w_ents w) -> In y (w_ents w')) ->
+  In x (entries_of (wupdate ws sid w')) <-> In x (entries_of ws) \/ In x (w_ents w').
+Proof.
+  induction ws as [|[j w0] r IH]; intros H; cbn [wupdate entries_of flat_map snd wlookup] in *.
+  - rewrite app_nil_r. cbn [In]. tauto.
+  - destruct (j =? sid) eqn:E; cbn [flat_map snd]; rewrite !in_app_iff.
+    + specialize (H w0 eq_refl). fold (entries_of r). intuition.
+    + fold (entries_of (wupdate r sid w')) (entries_of r). rewrite IH by exact H. tauto.
+Qed.
+
+Lemma send_reqs_in ws reqs ws' :
+  send_reqs ws reqs = Some ws' ->
+  forall x, In x (entries_of ws') <-> In x (entries_of ws) \/ In x (concat (map snd reqs)).
+Proof.
+  revert ws. induction reqs as [|[j es] r IH]; intros ws; cbn [send_reqs map snd concat].
+  - intros [= <-] x. cbn. tauto.
+  - intros H x. rewrite in_app_iff. destruct (wlookup ws j) as [w|] eqn:Ew.
+    + destruct (w_closed w); [discriminate|]. destruct (add_all _ es); [|discriminate].
+      rewrite (IH _ H), wupdate_entries.
+      * cbn [w_ents]. rewrite in_app_iff. apply wlookup_in in Ew.
+        assert (Hsub: In x (w_ents w) -> In x (entries_of ws)).
+        { intros Hx. unfold entries_of. apply in_flat_map. exists (j, w). split; auto. }
+        tauto.
+      * intros w1 Hw1 y Hy. rewrite Ew in Hw1. inversion Hw1; subst. cbn. apply in_or_app; now left.
+    + destruct (add_all None es); [|discriminate].
+      rewrite (IH _ H), wupdate_entries.
+      * cbn [w_ents]. tauto.
+      * intros w1 Hw1. rewrite Ew in Hw1. discriminate.
+Qed.
+
+Lemma close_streams_in ws closed x : In x (entries_of (close_streams ws closed)) <-> In x (entries_of ws).
+Proof.
+  revert ws. induction closed as [|c r IH]; intros ws; cbn [close_streams]; [tauto|].
+  destruct (wlookup ws c) as [w|] eqn:E; rewrite IH; [|tauto].
+  rewrite wupdate_entries.
+  - cbn [w_ents]. apply wlookup_in in E.
+    assert (Hsub: In x (w_ents w) -> In x (entries_of ws)).
+    { intros Hx. unfold entries_of. apply in_flat_map. exists (c, w). split; auto. }
+    tauto.
+  - intros w1 Hw1 y Hy. rewrite E in Hw1. inversion Hw1; subst. exact Hy.
+Qed.
+
+Lemma all_skv_app a b : all_skv (a ++ b) = all_skv a ++ all_skv b.
+Proof. unfold all_skv. apply flat_map_app. Qed.
+
+(* C26, all streams: the writers hold exactly the streamed entries *)
+Theorem sw_writes_in st writes st' :
+  sw_writes st writes = Some st' ->
+  (forall x, In x (entries_of (sw_writers st')) <-> In x (entries_of (sw_writers st)) \/ In x (all_skv (concat writes)))
+  /\ sw_max st <= sw_max st'
+  /\ (forall e, In e (all_skv (concat writes)) -> e_ver e <= sw_max st').
+Proof.
+  revert st. induction writes as [|w r IH]; intros st; cbn [sw_writes concat].
+  - intros [= <-]. split; [intros x; cbn; tauto|split; [lia|intros e []]].
+  - destruct (sw_write st w) as [st1|] eqn:E; [|discriminate]. intros H.
+    destruct (IH _ H) as (A & B & C).
+    assert (E1: (forall x, In x (entries_of (sw_writers st1)) <-> In x (entries_of (sw_writers st)) \/ In x (all_skv w))
+                /\ sw_max st <= sw_max st1 /\ (forall e, In e (all_skv w) -> e_ver e <= sw_max st1)).
+    { unfold sw_write in E. destruct w as [|it items]; [inversion E; subst; split; [intros x; cbn; tauto|split; [lia|intros e []]]|].
+      destruct (demux (it :: items) [] [] (sw_max st)) as [[[closed reqs] maxv]|] eqn:Ed; [|discriminate].
+      destruct (send_reqs (sw_writers st) reqs) as [ws|] eqn:Es; [|discriminate].
+      inversion E; subst st1. cbn [sw_writers sw_max].
+      destruct (demux_spec _ _ _ _ _ _ _ Ed) as (_ & _ & M1 & M2).
+      split; [|split; auto]. intros x. rewrite close_streams_in, (send_reqs_in _ _ _ Es), (demux_in _ _ _ _ _ _ _ Ed).
+      cbn. tauto. }
+    destruct E1 as (A1 & B1 & C1). split; [|split].
+    + intros x. rewrite A, A1, all_skv_app, in_app_iff. tauto.
+    + lia.
+    + intros e He. rewrite all_skv_app in He. apply in_app_or in He. destruct He as [He|He]; auto.
+      specialize (C1 e He). lia.
+Qed.
+
+Lemma set_level_nth_same (ls : list (list table)) n l : (n < length ls)%nat -> nth n (set_level ls n l) [] = l.
+Proof.
+  revert n. induction ls as [|x r IH]; intros n H; cbn in H; [lia|].
+  destruct n as [|n]; cbn [set_level nth]; auto. apply IH. lia.
+Qed.
+
+Lemma levels_entries_in ls x :
+  In x (levels_entries ls) <-> exists lvl t, In t (nth lvl ls []) /\ In x (t_ents t).
+Proof.
+  unfold levels_entries. rewrite levels_srcs_in. split.
+  - intros (l & t & A & B & C). destruct (In_nth ls l [] A) as (n & _ & Hn). exists n, t. rewrite Hn. auto.
+  - intros (lvl & t & A & B). exists (nth lvl ls []), t. split; auto.
+    destruct (Nat.lt_ge_cases lvl (length ls)) as [Hl|Hl]; [now apply nth_In|].
+    rewrite nth_overflow in A by lia. contradiction.
+Qed.
+
+Lemma tables_entries_in ts x : In x (tables_entries ts) <-> exists t, In t ts /\ In x (t_ents t).
+Proof.
+  unfold tables_entries. rewrite in_concat. split.
+  - intros (l & A & B). apply in_map_iff in A. destruct A as (t & <- & Ht). eauto.
+  - intros (t & A & B). exists (t_ents t). split; auto. now apply in_map.
+Qed.
+
+(* installing the new tables at the target level and sorting every level changes the set of
+   stored entries by exactly the new tables' entries *)
+Lemma install_entries ls target newt x :
+  (target < length ls)%nat ->
+  In x (levels_entries (map sort_tables (set_level ls target (nth target ls [] ++ newt))))
+  <-> In x (levels_entries ls) \/ In x (tables_entries newt).
+Proof.
+  intros Ht. rewrite !levels_entries_in, tables_entries_in.
+  assert (Hnth: forall lvl, nth lvl (map sort_tables (set_level ls target (nth target ls [] ++ newt))) []
+                            = sort_tables (nth lvl (set_level ls target (nth target ls [] ++ newt)) [])).
+  { intros lvl. exact (map_nth sort_tables (set_level ls target (nth target ls [] ++ newt)) [] lvl). }
+  split.
+  - intros (lvl & t & A & B). rewrite Hnth in A. apply (proj1 (sort_tables_in _ _)) in A.
+    destruct (Nat.eq_dec lvl target) as [->|Hne].
+    + rewrite set_level_nth_same in A by assumption. apply in_app_or in A.
+      destruct A as [A|A]; [left; exists target, t; auto|right; exists t; auto].
+    + rewrite set_level_nth_other in A by congruence. left. exists lvl, t. auto.
+  - intros [(lvl & t & A & B)|(t & A & B)].
+    + exists lvl, t. split; auto. rewrite Hnth. apply (proj2 (sort_tables_in _ _)).
+      destruct (Nat.eq_dec lvl target) as [->|Hne].
+      * rewrite set_level_nth_same by assumption. apply in_or_app; now left.
+      * rewrite set_level_nth_other by congruence. exact A.
+    + exists target, t. split; auto. rewrite Hnth. apply (proj2 (sort_tables_in _ _)).
+      rewrite set_level_nth_same by assumption. apply in_or_app; now right.
+Qed.
+
+Lemma mk_lsm_all_entries ls : all_entries (mkLsm [] [] ls) = levels_entries ls.
+Proof. reflexivity. Qed.
+
+(* the tree a stream-writer run starts from: emptied by Prepare, untouched by PrepareIncremental *)
+Definition sw_start (s : sys) (incr : bool) : list (list table) :=
+  if incr then l_levels (s_db s) else map (fun _ => []) (l_levels (s_db s)).
+
+(* C26, whole run (as coded): when the run is accepted, the stored entries are exactly the
+   prepared tree's (after the Flatten, if any) plus the streamed ones; Flush returns nil iff
+   every level >= 1 passes validate — an invalid level is never accepted silently; in normal
+   mode the next timestamp is above every streamed version *)
+Theorem stream_write_spec s incr flat writes layouts orders r next s' tags :
+  stream_write s incr flat writes layouts orders r next = SWOk s' tags ->
+  (incr && has_mem_data (s_db s)) = false ->
+  exists ls1 st newt,
+    run_flatten (sw_start s incr) flat = (0, ls1) /\
+    sw_writes (mkSWS [] 0) writes = Some st /\
+    build_tables (sw_writers st) layouts = Some newt /\
+    (sw_target incr (sw_start s incr) < length ls1)%nat /\
+    l_levels (s_db s') = map sort_tables (set_level ls1 (sw_target incr (sw_start s incr))
+                                             (nth (sw_target incr (sw_start s incr)) ls1 [] ++ newt)) /\
+    (forall x, In x (all_entries (s_db s')) <-> In x (levels_entries ls1) \/ In x (all_skv (concat writes))) /\
+    (r = 0 <-> levels_valid (l_levels (s_db s')) = true) /\
+    (r = 0 \/ r = 8) /\
+    (s_managed s = false -> forall e, In e (all_skv (concat writes)) -> e_ver e < s_next s').
+Proof.
+  unfold stream_write. intros H Hm. rewrite Hm in H.
+  set (s0 := if incr then set_db s (mkLsm [] [] (l_levels (s_db s))) else drop_all s) in H.
+  assert (Hls0: l_levels (s_db s0) = sw_start s incr) by (unfold s0, sw_start; destruct incr; reflexivity).
+  rewrite Hls0 in H.
+  destruct (negb _ && negb _) in H; [discriminate|].
+  destruct (run_flatten (sw_start s incr) flat) as [fc ls1] eqn:Ef.
+  destruct (fc =? 0) eqn:Efc; cbn [negb] in H; [|discriminate]. apply N.eqb_eq in Efc. subst fc.
+  destruct (sw_target incr (sw_start s incr) <? length ls1)%nat eqn:Et; cbn [negb] in H; [|discriminate].
+  apply Nat.ltb_lt in Et.
+  destruct (sw_writes (mkSWS [] 0) writes) as [st|] eqn:Ew; [|discriminate].
+  destruct (build_tables (sw_writers st) layouts) as [newt|] eqn:Eb; [|discriminate].
+  set (ls3 := map sort_tables (set_level ls1 _ _)) in H.
+  destruct (orders_match ls3 orders); cbn [negb] in H; [|discriminate].
+  destruct ((r =? 0) && levels_valid ls3 || (r =? 8) && negb (levels_valid ls3)) eqn:Er; cbn [negb] in H; [|discriminate].
+  destruct (s_managed s || (_ =? next)) eqn:En; cbn [negb] in H; [|discriminate].
+  inversion H; subst s' tags. clear H. cbn [s_db l_levels s_next].
+  exists ls1, st, newt. split; [reflexivity|split; [reflexivity|split; [exact Eb|split; [exact Et|split; [reflexivity|]]]]].
+  destruct (sw_writes_in _ _ _ Ew) as (A & B & C). cbn [sw_writers entries_of flat_map] in A.
+  split; [|split; [|split]].
+  - intros x. rewrite mk_lsm_all_entries. unfold ls3. rewrite install_entries by assumption.
+    rewrite (build_tables_entries _ _ _ Eb), A. cbn. tauto.
+  - destruct (levels_valid ls3) eqn:Ev.
+    + split; [reflexivity|intros _]. rewrite andb_true_r in Er. cbn [negb] in Er. rewrite andb_false_r, orb_false_r in Er.
+      now apply N.eqb_eq in Er.
+    + split; [|discriminate]. intros ->. cbn in Er. discriminate.
+  - apply orb_true_iff in Er. destruct Er as [Er|Er]; apply andb_true_iff in Er; destruct Er as [Er _];
+      apply N.eqb_eq in Er; auto.
+  - intros Hman e He. rewrite Hman. specialize (C e He). lia.
+Qed.
+
+Lemma levels_valid_nth ls lvl : levels_valid ls = true -> (1 <= lvl)%nat -> level_valid (nth lvl ls []) = true.
+Proof.
+  destruct ls as [|l0 deep]; cbn [levels_valid]; intros H Hl.
+  - destruct lvl; reflexivity.
+  - destruct lvl as [|lvl]; [lia|]. cbn [nth]. rewrite forallb_forall in H.
+    destruct (Nat.lt_ge_cases lvl (length deep)) as [Hlt|Hge].
+    + apply H. now apply nth_In.
+    + rewrite nth_overflow by lia. reflexivity.
+Qed.
+
+Definition tables_ok (ls : list (list table)) : Prop :=
+  forall lvl t, In t (nth lvl ls []) -> sorted (t_ents t) /\ t_ents t <> [].
+
+(* C26_levels_valid: an accepted run (Flush = nil) over a prepared tree with well-formed
+   tables leaves every level >= 1 one strictly increasing run of non-empty sorted tables *)
+Theorem stream_write_levels_ok s incr flat writes layouts orders r next s' tags ls1 :
+  stream_write s incr flat writes layouts orders r next = SWOk s' tags ->
+  (incr && has_mem_data (s_db s)) = false ->
+  run_flatten (sw_start s incr) flat = (0, ls1) -> tables_ok ls1 ->
+  r = 0 -> forall lvl, (1 <= lvl)%nat -> level_ok (nth lvl (l_levels (s_db s')) []).
+Proof.
+  intros H Hm Hf Hok Hr lvl Hl.
+  destruct (stream_write_spec _ _ _ _ _ _ _ _ _ _ H Hm) as (ls1' & st & newt & F & W & Bt & Tl & Lv & _ & V & _).
+  rewrite Hf in F. inversion F; subst ls1'. clear F.
+  apply (proj1 V) in Hr. pose proof (levels_valid_nth _ lvl Hr Hl) as Hv.
+  assert (Hws: writers_sorted (sw_writers st)).
+  { eapply sw_writes_sorted; eauto. constructor. }
+  destruct (build_tables_ok _ _ _ Bt Hws) as [Ns Nn].
+  rewrite Forall_forall in Ns, Nn.
+  assert (Hall: forall t, In t (nth lvl (l_levels (s_db s')) []) -> sorted (t_ents t) /\ t_ents t <> []).
+  { intros t Ht. rewrite Lv in Ht.
+    rewrite (map_nth sort_tables _ [] lvl) in Ht. apply (proj1 (sort_tables_in _ _)) in Ht.
+    destruct (Nat.eq_dec lvl (sw_target incr (sw_start s incr))) as [->|Hne].
+    - rewrite set_level_nth_same in Ht by assumption. apply in_app_or in Ht.
+      destruct Ht as [Ht|Ht]; [eapply Hok; eauto|split; auto].
+    - rewrite set_level_nth_other in Ht by congruence. eapply Hok; eauto. }
+  apply level_valid_sorted; auto; apply Forall_forall; intros t Ht; apply Hall; exact Ht.
+Qed.
